@@ -21,6 +21,7 @@ CLASSES = [
     "empty_slice",
     "orphan_other_module",
     "orphan_unowned",
+    "orphan_replaced",
     "noconn_referenced",
     "circular",
     "unnamed",
@@ -344,6 +345,27 @@ def _orphan_unowned(ch, ops, d, hier, top):
         return [], ["os", d.mods[mid].sigs[node[1]][0], f"orph{len(ops)}"]
 
     return _replace_live_x(ch, ops, d, hier, pred, make)
+
+
+def _orphan_replaced(ch, ops, d, hier, top):
+    """A connected internal signal is replaced under its own name by a fresh signal (same or
+    other width): the connection is still to the former holder, which no module owns any more."""
+    cands = []
+    for i in live_conn_ops(ops, d, hier):
+        op = ops[i]
+        if op[0] not in ("conn", "repl") or d.mods[op[1]].style == "gen":
+            continue
+        for path, node in _walk_paths(op[4]):
+            if node[0] == "s" and d.mods[op[1]].sigs[node[1]][1] == "i":
+                cands.append((i, node[1]))
+    if not cands:
+        return None
+    i, name = ch.pick(cands, "site")
+    mid = ops[i][1]
+    w = d.mods[mid].sigs[name][0]
+    neww = ch.pick([w, w, w + 1, max(1, w - 1)], "replw")
+    site = f"{'top' if mid == hier[-1] else 'deep'}:{d.mods[mid].insts[ops[i][2]]['kind']}:{'same' if neww == w else 'other'}-width"
+    return ops[: i + 1] + [["sig", mid, name, neww, "i", "n"]] + ops[i + 1 :], site
 
 
 def _noconn_shared(ch, ops, d, hier, top):
